@@ -10,6 +10,7 @@ import Tickit.Proof.LifeStep
 -/
 namespace Tickit.Life
 open WinTree (Id Win Req Change Tree)
+variable {gh : Ghost}
 
 /-- The pens' counts with `e k` references held by the library itself. -/
 structure PX (st : St) (e : Nat → Nat) : Prop where
@@ -407,7 +408,7 @@ theorem penSetDesc_X {st : St} {e : Nat → Nat} (P : PX st e) {k : Nat} {p : Ob
 
 /-! ## between operations the library holds no reference -/
 
-theorem PX.of_inv {st : St} (inv : SInv st) : PX st (fun _ => 0) := by
+theorem PX.of_inv {st : St} (inv : SInv gh st) : PX st (fun _ => 0) := by
   refine ⟨?_, ?_⟩
   · intro k p hk
     refine ⟨fun hf => ⟨?_, inv.pens.pos k p hk hf⟩, fun hf => ⟨(inv.pens.rc k p hk).2 hf, rfl⟩⟩
@@ -415,11 +416,11 @@ theorem PX.of_inv {st : St} (inv : SInv st) : PX st (fun _ => 0) := by
     simp only [Int.ofNat_zero, Int.add_zero]; exact this
   · intro k hk; exact ⟨inv.pens.ex k hk, rfl⟩
 
-theorem SInv.of_PX {st st' : St} (inv : SInv st) (F : PenFrame st st') (P : PX st' (fun _ => 0)) : SInv st' := by
+theorem SInv.of_PX {st st' : St} (inv : SInv gh st) (F : PenFrame st st') (P : PX st' (fun _ => 0)) : SInv gh st' := by
   have hg : ∀ j, getX st' j = getX st j := fun j => by unfold getX; rw [F.wx]
   refine ⟨⟨by rw [F.tree]; exact inv.tinv, by rw [F.wx, F.tree]; exact inv.wx_size, by rw [F.tree]; exact inv.rc,
     List.nodup_nil, by intro i hi; simp at hi, ?_, ⟨?_, ?_, ?_⟩, ?_, ?_, ?_,
-    ⟨by rw [F.rbs]; exact inv.simple.1, by rw [F.strs]; exact inv.simple.2⟩⟩, ?_⟩
+    ⟨by rw [F.rbs]; exact inv.simple.1, by rw [F.strs]; exact inv.simple.2⟩⟩, ?_, by rw [F.tree]; exact inv.glive⟩
   · intro i w hw hf hi; rw [hg]; rw [F.tree] at hw; exact inv.dead_pen i w hw hf hi
   · intro k p hk
     refine ⟨fun hf => ?_, fun hf => ((P.rc k p hk).2 hf).1⟩
@@ -436,8 +437,8 @@ theorem SInv.of_PX {st st' : St} (inv : SInv st) (F : PenFrame st st') (P : PX s
 
 /-- Every pen operation with change events keeps the invariant and never fails: whatever the handlers take and
     drop, the library's own references keep alive what it goes on using. -/
-theorem step_pen_ok {cfg : Cfg} (R : Repaired cfg) {st : St} (inv : SInv st) (op : Op) (hp : op.penEvent = true) :
-    ∃ st' r, step cfg st op = .ok (st', r) ∧ SInv st' ∧ st'.wx = st.wx := by
+theorem step_pen_ok {cfg : Cfg} (R : Repaired cfg) {st : St} (inv : SInv gh st) (op : Op) (hp : op.penEvent = true) :
+    ∃ st' r, step cfg st op = .ok (st', r) ∧ SInv gh st' ∧ st'.wx = st.wx := by
   have P0 := PX.of_inv inv
   cases op <;> simp only [Op.penEvent, Bool.false_eq_true] at hp <;> unfold step
   case pset k val =>
